@@ -490,7 +490,13 @@ func (self *Runtime) reattachToPipestance(psid string, pipestancePath string,
 		}
 		// Check if _invocation has changed.
 		if !bytes.Equal(src, data) {
-			return nil, &PipestanceInvocationError{psid, invocationPath}
+			// What was recorded is the invocation with the environment
+			// references in it expanded, as it was instantiated.
+			expanded := []byte(os.ExpandEnv(string(src)))
+			if !bytes.Equal(expanded, data) {
+				return nil, &PipestanceInvocationError{psid, invocationPath}
+			}
+			src = expanded
 		}
 	}
 	// Instantiate the pipestance.
